@@ -10,6 +10,7 @@ mod c12;
 mod c13;
 mod c16;
 mod decode;
+mod framed;
 mod packet_window;
 mod ss_udp;
 mod trojan;
@@ -46,6 +47,7 @@ fn dispatch(entry: &str, spec: &Value) -> Result<Option<String>, String> {
         "packet_window_history" => packet_window::history(spec),
         "client_udp_refused_id" => ss_udp::client_refused_id(spec),
         "decode" => decode::run(spec),
+        "framed" => framed::run(spec),
         "address_roundtrip" => address::roundtrip(spec),
         "validate_timestamp" => c10::validate_timestamp(spec),
         "vmess_matching" => c10::vmess_matching(spec),
